@@ -119,7 +119,13 @@ def check_extract(b, rexpy, examples, o, size, seed, props, w=None):
             b.check('C13.compiles', comp, dict(w, rex=r), 'does not compile: %r' % r)
             b.check('C13.anchored', r.startswith('^') and r.endswith('$'), dict(w, rex=r), r)
             if comp:
-                b.check('C13.matches-some-example', any(matches_full(r, s) for s in distinct),
+                pool = distinct
+                if o.get('strip'):
+                    # the examples as supplied (the \s* padding is there to match them with their whitespace)
+                    its = examples.items() if isinstance(examples, dict) else [(e, 1) for e in examples]
+                    pool = [e for e, n in its if e is not None and n != 0
+                            and not (o.get('remove_empties') and len(e.strip()) == 0)]
+                b.check('C13.matches-some-example', any(matches_full(r, s) for s in pool),
                         dict(w, rex=r), '%r matches none of the examples' % r)
         b.check('C13.no-duplicates', len(set(rex)) == len(rex), w, repr(rex))
         b.check('C13.at-most-one-per-distinct-example', len(rex) <= len(distinct), w,
@@ -348,6 +354,11 @@ def gen_cases(props, tier, seed):
     base.append(['x-' * 60, 'y.' * 60, 'z' * 120, 'z' * 120, 'y' * 120, 'xyz', 'xyq', 'xyq', 'A-1', 'B-2'])
     if 'C14' in props and not any(p in props for p in ('C03', 'C13', 'C18')):
         base = [e for e in base if len(e) <= 4 or len(e) > 20][: (220 if tier == 'quick' else 1500)]
+    # exactly one example with surrounding whitespace (the padding must still be emitted)
+    for ex in ([' ab-12', 'x y'], ['ab ', 'cd', 'ef'], {'  q1': 1, 'z9': 2}):
+        for oi, o in enumerate(OPTIONS):
+            if o.get('strip'):
+                cases.append((ex, oi, 0, None))
     # whitespace-only examples: kept (remove_empties off) and stripped to nothing under strip=True
     for ex in ([' ', 'ab', 'cd'], ['\t', 'ab'], ['  ', 'a1', 'b2', ''], [' ', '  '], ['\xa0', 'x']):
         for oi, o in enumerate(OPTIONS):
